@@ -316,6 +316,18 @@ def check_init(chk, prog, f, owned):
                         delegated = True
                     if re.search(r"_init(_|$)", cn) and cn != f.name and not cn.startswith("spif_obj_init"):
                         delegated = True
+                    # a static helper of the same file that is handed self: the fields it assigns (through its own first
+                    # pointer parameter of the same record) count
+                    h = f.unit.functions.get(cn)
+                    if h is not None and h.static and h is not f and h.params:
+                        pj = [j for j, a in enumerate(args) if X.strip(a).get("rk") == "param" and X.strip(a).get("pi") == 0]
+                        for j in pj:
+                            if j < len(h.params):
+                                for m in walk(h.body):
+                                    if m.get("k") == "assign":
+                                        fld2 = self_field(m["ch"][0], j)
+                                        if fld2:
+                                            assigned.add(fld2)
     for fld in owned:
         ok = delegated or fld in assigned
         chk.ob("O9", f.name, "init-assigns:" + fld, ok, loc=f.loc(f.body),
